@@ -238,15 +238,11 @@ func (r *resolver) enter(d Definition) ([]Definition, error) {
 	}
 
 	if hasCases, valid := d.(*Choice); valid {
+		if err := r.dropDisabledCases(hasCases); err != nil {
+			return nil, err
+		}
 		for _, cident := range hasCases.CaseIdents() {
 			c := hasCases.cases[cident]
-			if on, err := checkFeature(c); err != nil {
-				return nil, err
-			} else if !on {
-				delete(hasCases.cases, cident)
-				r.leftOutByFeature(hasCases, cident)
-				continue
-			}
 			if err := r.enterCase(hasCases, c); err != nil {
 				return nil, err
 			}
@@ -655,6 +651,19 @@ func isArrayStringEqual(a []string, b []string) bool {
 //	       c2      d3
 //	order would be:
 //	   Enter M, Enter A1, Enter c2, Leave c2, Leave a2, Enter b1,
+// the cases whose if-feature is false leave the choice
+func (r *resolver) dropDisabledCases(choice *Choice) error {
+	for _, cident := range choice.CaseIdents() {
+		if on, err := checkFeature(choice.cases[cident]); err != nil {
+			return err
+		} else if !on {
+			delete(choice.cases, cident)
+			r.leftOutByFeature(choice, cident)
+		}
+	}
+	return nil
+}
+
 // a choice and a case are not nodes of the data tree: their conditions (their own, or those
 // of the uses or augment that brought them in) are conditions of the data nodes of the case,
 // evaluated where those nodes live
@@ -707,6 +716,12 @@ func (r *resolver) addDataDefinition(parent HasDataDefinitions, child Definition
 		fc.Debug.Printf("ADD %s/%s", parent.Ident(), child.Ident())
 	}
 
+	if choice, isChoice := child.(*Choice); isChoice {
+		// before the parent indexes the nodes of the cases by name
+		if err := r.dropDisabledCases(choice); err != nil {
+			return nil, err
+		}
+	}
 	if err := parent.addDataDefinition(child); err != nil {
 		return nil, err
 	}
